@@ -15,6 +15,7 @@ type Map struct {
 	pidDelta  uint16
 	lastEntry uint16
 	entries   []entry
+	started   bool
 }
 
 type entry struct {
@@ -28,6 +29,15 @@ type entry struct {
 func (m *Map) Map(seqno uint16, pid uint16) (bool, uint16, uint16) {
 	m.mu.Lock()
 	defer m.mu.Unlock()
+
+	if !m.started {
+		// the zero value of next cannot be told apart from a
+		// stream that is about to send seqno 0
+		m.started = true
+		m.next = seqno + 1
+		m.nextPid = pid
+		return true, seqno, 0
+	}
 
 	if m.delta == 0 && m.entries == nil {
 		if compare(m.next, seqno) <= 0 ||
@@ -185,6 +195,10 @@ func (m *Map) Reverse(seqno uint16) (bool, uint16, uint16) {
 func (m *Map) Drop(seqno uint16, pid uint16) bool {
 	m.mu.Lock()
 	defer m.mu.Unlock()
+
+	if !m.started {
+		return false
+	}
 
 	if seqno != m.next {
 		return false
